@@ -7,6 +7,8 @@ mkdir -p build evidence replays coq/Gen
 import sys, os, json
 sys.path.insert(0, "tools"); sys.path.insert(0, ".")
 from harness.common import Ctx, load_gen_specs
+from harness import c20_gen
+c20_gen.install()      # GenC20 goes through its own front end (as in ./check C20)
 specs = load_gen_specs()
 c = Ctx("C00")
 c.regen(list(specs))
